@@ -1351,25 +1351,30 @@ def app_channel_cases(ctx):
 SESSION_SECRET = bytes((7 * i + 3) % 256 for i in range(64))
 
 
-def _hkdf(salt, info):
+def _hkdf(salt, info, secret=SESSION_SECRET):
     from cryptography.hazmat.primitives import hashes
     from cryptography.hazmat.primitives.kdf.hkdf import HKDF
-    return HKDF(algorithm=hashes.SHA512(), length=32, salt=salt.encode(), info=info.encode()).derive(SESSION_SECRET)
+    return HKDF(algorithm=hashes.SHA512(), length=32, salt=salt.encode(), info=info.encode()).derive(secret)
 
 
 class SessVerifier:
-    def __init__(self):
-        self.calls = []
-        self.by_key = {}
+    """What one pair-verify leaves behind: a shared secret that is FRESH for every pair-verify
+    (new ephemeral Curve25519 keys on both sides), and HKDF on it."""
+
+    def __init__(self, idx=0, calls=None, by_key=None):
+        self.idx = idx
+        self.secret = hashlib.sha512(SESSION_SECRET + b"pair-verify #%d" % idx).digest()
+        self.calls = [] if calls is None else calls
+        self.by_key = {} if by_key is None else by_key
 
     async def verify_credentials(self):
         return True
 
     def encryption_keys(self, salt, output_info, input_info):
-        self.calls.append([salt, output_info, input_info])
-        ko, ki = _hkdf(salt, output_info), _hkdf(salt, input_info)
-        self.by_key.setdefault(ko, [salt, output_info])
-        self.by_key.setdefault(ki, [salt, input_info])
+        self.calls.append([salt, output_info, input_info] + ([self.idx] if self.idx else []))
+        ko, ki = _hkdf(salt, output_info, self.secret), _hkdf(salt, input_info, self.secret)
+        self.by_key.setdefault(ko, [salt, output_info, self.idx])
+        self.by_key.setdefault(ki, [salt, input_info, self.idx])
         return ko, ki
 
 
@@ -1396,17 +1401,29 @@ class _Conn:
     def close(self):
         pass
 
+    async def post(self, *a, **kw):
+        from pyatv.support.http import HttpResponse
+        return HttpResponse("RTSP", "1.0", 200, "OK", {}, b"")
+
 
 class _Rtsp:
     session_id = 4711
 
     def __init__(self, conn):
         self.connection = conn
+        self.stream_keys = []      # the audio key as the DEVICE learns it (SETUP body, 'shk')
+
+    async def feedback(self, **kw):
+        return None
+
+    async def exchange(self, *a, **kw):
+        return None
 
     async def setup(self, headers=None, body=None):
         import plistlib
         from pyatv.support.http import HttpResponse
         if "streams" in (body or {}):
+            self.stream_keys.append(bytes(body["streams"][0].get("shk", b"")))
             d = {"streams": [{"controlPort": 6001, "dataPort": 6002}]}
         else:
             d = {"eventPort": 6000}
@@ -1449,15 +1466,22 @@ def run_session(which):
             created.append((p, t))
             return t, p
 
-    ver = SessVerifier()
+    calls, by_key, nver = [], {}, [0]
+
+    def fresh_pair_verify(creds, connection):
+        v = SessVerifier(nver[0], calls, by_key)
+        nver[0] += 1
+        return v
+
     conn = _Conn()
     rstate = random.getstate()
     loop = Loop()
-    peer_enc = []
+    peer_enc, problems = [], []
+    replies = want_replies = 0
     try:
         random.seed(20260930)
         cc.ChaCha20Poly1305 = RecAEAD
-        auth.pair_verify = lambda creds, connection: ver
+        auth.pair_verify = fresh_pair_verify
         asyncio.set_event_loop(loop)
 
         def device_sends(chan, payloads):
@@ -1469,28 +1493,118 @@ def run_session(which):
                 chan.data_received(lb + aead.encrypt(n, req, lb))
 
         events = [b"POST /command RTSP/1.0\r\nCSeq: %d\r\nContent-Length: 0\r\n\r\n" % i for i in range(3)]
-        if which == "raop":
+        if which.startswith("raop"):
             from pyatv.protocols.raop.protocols import StreamContext
             from pyatv.protocols.raop.protocols.airplayv2 import AirPlayV2
+            from pyatv.protocols.raop.stream_client import ControlClient, StreamClient
+            from pyatv.protocols.raop.packets import RetransmitReqeust
 
-            async def go():
-                ap = AirPlayV2(StreamContext(), _Rtsp(conn))
-                await ap._setup_base(1234)
-                await ap.setup_audio_stream(5555)
-                return ap
+            rtsp = _Rtsp(conn)
+            ctxt = StreamContext()
+            ctxt.reset()
+            ctxt.rtpseq = 0xFFFA          # the 16-bit sequence number wraps inside the run
+            ap = AirPlayV2(ctxt, rtsp)
 
-            ap = loop.run_until_complete(go())
-            for i in range(3):
-                conn.send_processor(b"SETUP rtsp://x RTSP/1.0\r\nCSeq: %d\r\n\r\n" % i)
-            device_sends(created[0][0], events)
-            tr = FakeTransport()
-            for i in range(3):
-                co = ap.send_audio_packet(tr, struct.pack(">BBHII", 0x80, 0x60, i, 352 * i, 7), bytes(16))
-                try:
-                    co.send(None)
-                except StopIteration:
-                    pass
-            replies = len(created[0][1].out)
+            class Source:
+                """Audio source: packet i is 1408 bytes starting with its index."""
+                def __init__(self):
+                    self.i = 0
+
+                async def readframes(self, nframes):
+                    self.i += 1
+                    return bytes([self.i]) + pattern(13, self.i, 0, ctxt.packet_size - 1)
+
+            def stream_some(npk):
+                """npk packets through the real StreamClient._send_packet (backlog included), then the
+                device asks for every one of them again through the real ControlClient; the
+                independent peer decrypts originals and retransmits with the key from SETUP."""
+                client = StreamClient(rtsp, ctxt, ap, None)
+                control = ControlClient(ctxt, client._packet_backlog)
+                ctrl_tr, audio_tr, src = FakeTransport(), FakeTransport(), Source()
+                control.connection_made(ctrl_tr)
+                sent = {}
+
+                async def send():
+                    for i in range(npk):
+                        seq = ctxt.rtpseq
+                        await client._send_packet(src, i == 0, audio_tr)
+                        sent[seq] = bytes([src.i]) + pattern(13, src.i, 0, ctxt.packet_size - 1)
+
+                loop.run_until_complete(send())
+                key = rtsp.stream_keys[-1]
+                dev = RefAEAD(key) if len(key) == 32 else None
+
+                def open_pkt(pkt):
+                    return dev.decrypt(b"\x00\x00\x00\x00" + pkt[-8:], pkt[12:-8], pkt[4:12])
+
+                for (seq, audio), wire in zip(sent.items(), audio_tr.out):
+                    try:
+                        ok = dev is not None and open_pkt(wire) == audio and struct.unpack(">H", wire[2:4])[0] == seq
+                    except Exception:  # noqa
+                        ok = False
+                    if not ok:
+                        problems.append(("C07:ap2:peer-cannot-recover", "audio packet with sequence number %d is not recovered by the device "
+                                         "(key from the SETUP request, nonce from the packet)" % seq, {"seqno": seq}))
+                        break
+                requests = [(seq, 1) for seq in sent] + [(list(sent)[0], npk)]
+                for first, count in requests:
+                    n0 = len(ctrl_tr.out)
+                    control.datagram_received(RetransmitReqeust.encode(0x80, 0xD5, 1, first, count), ("10.0.0.2", 6001))
+                    back = ctrl_tr.out[n0:]
+                    wanted = [(first + j) % 65536 for j in range(count)]
+                    bad = None
+                    if len(back) != count:
+                        bad = "%d packets came back" % len(back)
+                    else:
+                        for seq, resp in zip(wanted, back):
+                            pkt = resp[4:]
+                            try:
+                                got = open_pkt(pkt)
+                            except Exception as ex:  # noqa
+                                bad = "the retransmitted packet for %d does not decrypt (%s)" % (seq, type(ex).__name__)
+                                break
+                            if resp[:2] != b"\x80\xd6" or struct.unpack(">H", pkt[2:4])[0] != seq or got != sent[seq]:
+                                bad = "asked for %d, got sequence number %d carrying the audio of packet #%d" % (
+                                    seq, struct.unpack(">H", pkt[2:4])[0], got[0] if got else -1)
+                                break
+                    if bad:
+                        problems.append(("C07:ap2:retransmit-not-what-was-sent",
+                                         "retransmit request (first=%d, count=%d) after %d packets: %s; the device must recover exactly the audio "
+                                         "that was sent under that sequence number" % (first, count, npk, bad),
+                                         {"first": first, "count": count, "packets": npk}))
+                        break
+
+            def one_setup(npk):
+                n_ev = len(created)
+                loop.run_until_complete(ap.setup(1234, 5555))
+                for i in range(3):
+                    conn.send_processor(b"SETUP rtsp://x RTSP/1.0\r\nCSeq: %d\r\n\r\n" % i)
+                device_sends(created[n_ev][0], events)
+                stream_some(npk)
+                return len(created[n_ev][1].out)
+
+            if which == "raop":
+                replies, want_replies = one_setup(12), 3
+            elif which == "raop-resetup":
+                # one protocol object used for two streams: setup, packets, teardown, setup, packets
+                replies = one_setup(4)
+                ap.teardown()
+                replies += one_setup(4)
+                ap.teardown()
+                replies += one_setup(3)
+                want_replies = 9
+            else:
+                # play_url first, then an audio stream on the same object
+                n_ev = len(created)
+                loop.run_until_complete(ap.play_url(1234, "http://10.0.0.1/x.mp4"))
+                device_sends(created[n_ev][0], events)
+                replies = len(created[n_ev][1].out)
+                for i in range(3):
+                    conn.send_processor(b"POST /play RTSP/1.0\r\nCSeq: %d\r\n\r\n" % i)
+                ap.teardown()
+                replies += one_setup(4)
+                want_replies = 6
+            ap.teardown()
         else:
             from pyatv.auth.hap_pairing import TRANSIENT_CREDENTIALS
             from pyatv.protocols.airplay.ap2_session import AP2Session
@@ -1512,17 +1626,26 @@ def run_session(which):
             from pyatv.protocols.mrp import messages, protobuf
             for i in range(3):
                 sess.data_channel.send_protobuf(messages.create(protobuf.GENERIC_MESSAGE))
-            replies = len(created[0][1].out)
+            replies, want_replies = len(created[0][1].out), 3
     finally:
         cc.ChaCha20Poly1305 = real_aead
         auth.pair_verify = real_pv
         random.setstate(rstate)
+        try:
+            pending = [t for t in asyncio.all_tasks(loop) if not t.done()]
+            for t in pending:
+                t.cancel()
+            if pending:
+                loop.run_until_complete(asyncio.gather(*pending, return_exceptions=True))
+        except Exception:  # noqa
+            pass
         asyncio.set_event_loop(None)
         loop.close()
     used = sorted({o for (_, _, o) in enc})
-    labels = {o: ver.by_key.get(objs[o].key, ["?", objs[o].key.hex()]) for o in used}
-    return {"which": which, "derivations": ver.calls, "labels": labels, "enc": enc, "peer_enc": peer_enc,
-            "event_replies": replies, "n_objects": len(objs)}
+    labels = {o: by_key.get(objs[o].key, ["?", objs[o].key.hex(), -1]) for o in used}
+    return {"which": which, "derivations": calls, "labels": labels, "enc": enc, "peer_enc": peer_enc,
+            "event_replies": replies, "want_replies": want_replies, "n_objects": len(objs), "problems": problems,
+            "pair_verifies": nver[0]}
 
 
 def judge_session(ctx, r):
@@ -1532,7 +1655,8 @@ def judge_session(ctx, r):
             reported = True
             a, b = r["labels"][seen[(k, n)]], r["labels"][o]
             ctx.violation("C07:session:nonce-reuse-across-channels",
-                          "two cipher objects of one %s session encrypt under the same key with the same nonce %s: keys derived with %s and %s"
+                          "two cipher objects in the lifetime of one %s session/protocol object encrypt under the same key with the same nonce %s: keys derived with "
+                          "(salt, info, pair-verify #) %s and %s"
                           % (r["which"], n.hex(), a, b),
                           {"kind": "session", "which": r["which"], "channels": [a, b], "nonce": n.hex(), "derivations": r["derivations"]})
         seen.setdefault((k, n), o)
@@ -1545,30 +1669,38 @@ def judge_session(ctx, r):
                           {"kind": "session", "which": r["which"], "channels": [a, "event channel, device -> pyatv"], "nonce": n.hex(),
                            "derivations": r["derivations"]})
             break
-    if r["event_replies"] != 3:
-        ctx.violation("C07:session:event-channel-dead", "the event channel answered %d of 3 requests" % r["event_replies"],
+    if r["event_replies"] != r["want_replies"]:
+        ctx.violation("C07:session:event-channel-dead", "the event channel(s) answered %d of %d requests" % (r["event_replies"], r["want_replies"]),
                       {"kind": "session", "which": r["which"]})
+    for key, what, detail in r["problems"]:
+        d = {"kind": "session", "which": r["which"]}
+        d.update(detail)
+        ctx.violation(key, "%s session: %s" % (r["which"], what), d)
     ctx.case(("session", r["which"], json.dumps(r["derivations"])), nontrivial=True,
              sample={"session": r["which"], "derivations": r["derivations"], "encrypting_objects": list(r["labels"].values()),
                      "encrypt_calls": len(r["enc"])})
     ctx.count("session:" + r["which"])
 
 
+SESSIONS = ("raop", "raop-resetup", "raop-playurl", "ap2")
+
+
 def gen(ctx):
     """Translator: (salt, info) of every key pyatv ENCRYPTS under in an AirPlay 2 session, read by
     running the real derivation call sites.  Re-emitted on every run; fail closed."""
     rows = []
-    for which in ("raop", "ap2"):
+    for which in SESSIONS:
         r = run_session(which)
         if not r["labels"] or any(l[0] == "?" for l in r["labels"].values()):
             raise RuntimeError("cannot attribute a cipher object of the %s session to a key derivation: %s" % (which, r["labels"]))
-        rows.append((which, [r["labels"][o] for o in sorted(r["labels"])]))
+        rows.append((which.replace("-", "_"), [r["labels"][o] for o in sorted(r["labels"])]))
     txt = ["(* GENERATED by harness/c07.py gen() from the key-derivation call sites of /repo - do not edit. *)",
            "From Coq Require Import List NArith. Import ListNotations.", "Local Open Scope N_scope.",
-           "(* (salt, info) the out-key of each encrypting cipher object of the session was derived with *)"]
+           "(* per cipher object that encrypted during the lifetime of the session / protocol object:",
+           "   (index of the pair-verify whose shared secret was used, (salt, info) of its out-key) *)"]
     for which, labs in rows:
-        txt.append("Definition out_derivs_%s : list (list N * list N) := [\n  %s\n]." % (
-            which, ";\n  ".join("(%s, %s)" % (lit(a.encode()), lit(b.encode())) for a, b in labs)))
+        txt.append("Definition out_derivs_%s : list (N * (list N * list N)) := [\n  %s\n]." % (
+            which, ";\n  ".join("(%d, (%s, %s))" % (i, lit(a.encode()), lit(b.encode())) for a, b, i in labs)))
     path = os.path.join(common.COQ, "C07", "Gen.v")
     new = "\n".join(txt) + "\n"
     if not os.path.exists(path) or open(path).read() != new:
@@ -1730,7 +1862,7 @@ def run(ctx):
         idx += 1
     long_oracle(ctx)
     app_channel_cases(ctx)
-    for which in ("raop", "ap2"):
+    for which in SESSIONS:
         judge_session(ctx, run_session(which))
     mism = batch.run()
     for g, meta in mism[:12]:
